@@ -1074,7 +1074,7 @@ theorem cv_lslice (k : Toks) (u : Ty) (hwf : (Ty.lslice u).wf) (hs : descShape u
         exact empty_calls k w (by simpa [Ty.wt] using hwf.2.1) hs.1 hwf.1.2
       | _ => exact absurd (hty _ ha) (by simp [Ty.hasTy])
     · rw [elemCalls_present u a hnil, elemQ_present k u a hnil]
-      exact h a (hty a ha) hnil (ne_map_none_of_not_map u hwf.2.2 a (hty a ha))
+      exact h a (hty a ha) hnil (ne_map_none_of_not_map u hwf.2.2.1 a (hty a ha))
   | _ => simp [Ty.hasTy] at hty
 
 theorem fields_calls (k : Toks) : ∀ (fs : Fields) (vs : List Val), (∀ f ∈ fs, CVal k f.2.2) →
@@ -1542,7 +1542,7 @@ def cxVal : Val :=
 theorem cx_hyps : cxTy.wf ∧ descShape cxTy = true ∧ cxTy.hasTy cxVal ∧ descOK cxTy cxVal
     ∧ cxVal.omit = false ∧ (marshal cxTy cxVal).length < 2 ^ 63 := by
   refine ⟨?_, by decide, ?_, ?_, rfl, by decide +kernel⟩
-  · simp [cxTy, Ty.wf, fieldsWf, validWidth, Ty.wt, Ty.isMap]
+  · simp [cxTy, Ty.wf, fieldsWf, validWidth, Ty.wt, Ty.isMap, Ty.isProtoSlice]
   · simp [cxTy, cxVal, Ty.hasTy, fieldsHaveTy, intRange, keysDistinct, Val.beq]
   · simp [cxTy, cxVal, descOK, fieldsDescOK]
 
